@@ -302,7 +302,7 @@ func (cs *caseSpec) validate() string {
 			}
 		case KExit:
 			exits++
-			if a.ID != ExitCtrlC && a.ID != ExitCtrlD && !isInsertExit(a.ID) && !isOneShell(a.ID) {
+			if a.ID != ExitCtrlC && a.ID != ExitCtrlD && !isInsertExit(a.ID) && !isOneShell(a.ID) && !isLogExit(a.ID) {
 				return "unknown exit " + a.ID
 			}
 		default:
